@@ -24,9 +24,11 @@ IP_ALPHA = ["S1.0", "S1025.0", "N", "R0", "F1", "C", "X", "T", "D", "RC", "O0"]
 BLE_ALPHA = ["S1.0", "S30.1", "N", "R0", "F1", "C", "X", "T", "D", "RC", "O0"]
 COAP_ALPHA = ["S1.0", "N", "R0", "F1", "C", "X", "T", "RC", "EN", "ER0", "EC"]
 ALPHA = {"ip": IP_ALPHA, "ble": BLE_ALPHA, "coap": COAP_ALPHA}
-# thorough depth-6 sweep: the payload-size variant is dropped (it is in the depth-5 sweep)
-ALPHA6 = {"ip": [a for a in IP_ALPHA if a != "S1025.0"], "ble": [a for a in BLE_ALPHA if a != "S1.0"],
-          "coap": COAP_ALPHA}
+# the 8-symbol core used for the deepest level of each sweep
+CORE = {"ip": ["S1.0", "N", "R0", "F1", "C", "X", "T", "RC"],
+        "ble": ["S30.1", "N", "R0", "F1", "C", "X", "T", "RC"],
+        "coap": ["S1.0", "N", "R0", "F1", "C", "X", "T", "RC"]}
+COAP_EVT = ["EN", "ER0", "EF1", "EC", "S1.0", "N"]     # event channel interleaved with a request/response
 
 
 def parse_ev(t):
@@ -219,12 +221,18 @@ def get_loop():
     return _loop
 
 
-def settle(loop, rounds=200):
-    for _ in range(rounds):
-        loop.call_soon(loop.stop)
-        loop.run_forever()
-        if not loop._ready:
-            return
+def settle(loop, rounds=1000):
+    """Run the loop until nothing is ready and no timer is due (virtual clock)."""
+    from asyncio import events
+    events._set_running_loop(loop)
+    try:
+        for _ in range(rounds):
+            sched = loop._scheduled
+            if not loop._ready and not (sched and sched[0]._when <= loop.vt):
+                return
+            loop._run_once()
+    finally:
+        events._set_running_loop(None)
     raise RuntimeError("loop did not settle")
 
 
@@ -924,21 +932,23 @@ def run(ctx):
     workers = min(16, os.cpu_count() or 2)
     cov = Coverage("distinct history (transport + event list) in which at least one frame was sealed or one open attempted")
     viols = {}
-    depth = 5
+    full_depth, core_depth = (4, 5) if tier == "quick" else (5, 6)
     n_rand = 1500 if tier == "quick" else 17000
     counts = {}
     mismatches = 0
     for transport in ("ip", "ble", "coap"):
-        hists = list(exhaustive(ALPHA[transport], depth))
-        n_ex = len(hists)
-        if tier == "thorough":
-            hists += [list(t) for t in itertools.product(ALPHA6[transport], repeat=6)]
-        n_ex6 = len(hists) - n_ex
+        hists = list(exhaustive(ALPHA[transport], full_depth))
+        n_full = len(hists)
+        hists += [list(t) for t in itertools.product(CORE[transport], repeat=core_depth)]
+        if transport == "coap":
+            hists += [list(t) for t in itertools.product(COAP_EVT, repeat=core_depth)]
+        n_core = len(hists) - n_full
         hists += DIRECTED[transport]
         hists += random_histories(transport, rng(seed, "c06" + transport), n_rand, 60)
         model = drv.batch([transport + " " + " ".join(h) for h in hists])
         impl = impl_batch(transport, hists, workers)
-        counts[transport] = dict(exhaustive_depth5=n_ex, exhaustive_depth6=n_ex6, directed=len(DIRECTED[transport]), random=n_rand)
+        counts[transport] = dict(exhaustive_full_alphabet=n_full, exhaustive_core_alphabet=n_core,
+                                 directed=len(DIRECTED[transport]), random=n_rand)
         for idx, (h, m, (canon, bad)) in enumerate(zip(hists, model, impl)):
             nontrivial = canon != "seal=;wire=;open=;acc=;out="
             cov.case(transport + " " + " ".join(h), nontrivial,
@@ -978,9 +988,10 @@ def run(ctx):
                 v["what"] = v["what"].split("; history ")[0] + "; history " + " ".join(small)
         out.append(v)
     cov.extra["exhaustive"] = True
-    cov.extra["exhaustive_part"] = ("per transport: every history of length <= 5 over its 11-symbol alphabet %s"
-                                    % {k: v for k, v in ALPHA.items()}
-                                    + ("; thorough: plus every history of length 6 over the 10/11-symbol alphabets" if tier == "thorough" else ""))
+    cov.extra["exhaustive_part"] = (
+        "per transport: every history of length <= %d over its 11-symbol alphabet %s; every history of length %d over the "
+        "8-symbol core %s; CoAP additionally every history of length %d over the event alphabet %s"
+        % (full_depth, ALPHA, core_depth, CORE, core_depth, COAP_EVT))
     cov.extra["case_counts"] = counts
     cov.extra["disagreements_checked"] = mismatches
     cov.extra["compared"] = "seal log, wire log, open attempts (nonce, success), accepted frame identities, per-request outcome class"
